@@ -249,7 +249,86 @@ func gen(r *Rand) Input {
 			in.Ops = append(in.Ops, pp)
 		}
 	}
+	addTiming(r.Fork(), &in, nrelays)
 	return in
+}
+
+// ---------------------------------------------------------------------------------------------
+// Peers that take time.  Real relay and beacon node clients need a round trip and give up when
+// their context is cancelled; which peer answers first decides who is still in flight when another
+// one fails.  Half of the histories get latencies: failing peers mostly fast (connection refused,
+// immediate 503) and healthy ones mostly slow, sometimes the other way round, sometimes seconds
+// (bounded by the client's own timeout).  The other half answers at once, as before.
+
+var fastMs = []uint64{0, 10, 10, 20}
+var slowMs = []uint64{50, 120, 250, 250}
+
+func pickLat(r *Rand, failing bool) uint64 {
+	fast := r.Chance(1, 4)
+	if failing {
+		fast = r.Chance(3, 4)
+	}
+	if r.Chance(1, 40) {
+		return uint64(r.Range(2, 8)) * 1000 // a peer that is really slow
+	}
+	if fast {
+		return fastMs[r.Intn(len(fastMs))]
+	}
+	return slowMs[r.Intn(len(slowMs))]
+}
+
+func addTiming(r *Rand, in *Input, nrelays int) {
+	if !r.Chance(1, 2) {
+		return
+	}
+	// something to be in flight next to: with timing, a lone preparer node gets company
+	if in.NPrepNodes < 2 && r.Chance(2, 3) {
+		in.NPrepNodes = 2
+	}
+	for i := range in.Ops {
+		op := &in.Ops[i]
+		kind := map[uint64]string{}
+		for _, k := range op.Relays {
+			kind[k.Addr] = k.Kind
+		}
+		switch op.Kind {
+		case "round", "forward":
+			for a := 1; a <= nrelays; a++ {
+				op.RelayLat = append(op.RelayLat, LatIn{Addr: uint64(a), Ms: pickLat(r, kind[uint64(a)] == "err")})
+			}
+			if op.Kind == "round" {
+				// a remote signer: 5 or 10 ms per request, all requests of a round well within the
+				// half second after which time.Now().Round(time.Second) would be the next second
+				reqs := 0
+				for _, vi := range op.Vals {
+					if vi.Res != nil {
+						reqs += len(vi.Res.Relays)
+					} else if op.RealCfg != "" {
+						reqs += 4
+					}
+				}
+				if r.Chance(2, 3) && reqs*10 <= 400 {
+					op.SignLat = uint64(5 * r.Range(1, 2))
+				}
+				for k := 0; k < in.NNodes; k++ {
+					op.NodeLat = append(op.NodeLat, pickLat(r, k < len(op.Nodes) && op.Nodes[k] == "err"))
+				}
+			}
+		case "prepare":
+			for len(op.Nodes) < in.NPrepNodes {
+				// the node added above: fails in a third of the preparations
+				if r.Chance(1, 3) {
+					op.Nodes = append(op.Nodes, "err")
+				} else {
+					op.Nodes = append(op.Nodes, "ok")
+				}
+			}
+			for k := 0; k < in.NPrepNodes; k++ {
+				op.NodeLat = append(op.NodeLat, pickLat(r, op.Nodes[k] == "err"))
+			}
+		}
+	}
+	in.Tags = append(in.Tags, "timed")
 }
 
 // ---------------------------------------------------------------------------------------------
@@ -435,5 +514,6 @@ func genReal(r *Rand) Input {
 			in.Ops = append(in.Ops, pp)
 		}
 	}
+	addTiming(r.Fork(), &in, nrelays)
 	return in
 }
